@@ -514,10 +514,10 @@ func (tc *treeCase) add(batch []*rawCh, tag string) string {
 		raws = append(raws, rc.proto())
 	}
 	for _, p := range ps {
-		if p.decOK && !p.isRoot && (p.isSnap || len(p.prev) == 0) && !tc.resync {
-			// snapshot changes (tree reduction) and changes without previous ids are outside the model
+		if p.decOK && !p.isRoot && p.isSnap && !tc.resync {
+			// snapshot changes (tree reduction) are outside the model
 			tc.resync = true
-			tc.r.Count("unmodelled.snapshot-or-noprev")
+			tc.r.Count("unmodelled.snapshot")
 		}
 	}
 	before := tc.observe()
@@ -564,6 +564,11 @@ func (tc *treeCase) add(batch []*rawCh, tag string) string {
 	// oracle 2: a rejected batch is a no-op on heads, iteration order, storage
 	if err != nil && before.exact() != after.exact() {
 		tc.violate("auth.add.noop", "a rejected batch ("+status+") changed "+before.diff(tc, after))
+	}
+	if err == nil && len(added) == 0 && before.exact() != after.exact() {
+		// not a rejected batch in the API sense (no error), so not judged by C02; reported to the
+		// integrator: a batch that adds nothing moved heads / iteration (reload drops a stored change)
+		tc.r.Count("observation.empty-ok-batch-changed-state")
 	}
 	// oracle 3 (consistency of the reply): on success the reported additions are what became attached and stored
 	if err == nil {
@@ -796,7 +801,7 @@ func (tc *treeCase) content(a *acct, snapshot bool) {
 	}
 	if snapshot && !tc.resync {
 		tc.resync = true
-		tc.r.Count("unmodelled.snapshot-or-noprev")
+		tc.r.Count("unmodelled.snapshot")
 	}
 	model := tc.ask(fmt.Sprintf("content id=%d acc=%d", idn, a.idx))
 	impl := fmt.Sprintf("%s add=%s %s", status, orderedNums(tc, added), tc.post(after))
